@@ -701,8 +701,8 @@ fn retry_case<const N: u32>() {
 
 const MAX_REGIONS_CAP: u32 = 0x0010_0000;
 
-// @harness props=C14 tier=quick timeout=2400 mem=24 stubbing=1 replay=scenario:page_alter
-// @desc allocate_helper_retry (region selection through the region tracker) on a one-region database from ANY allocator state satisfying R and ANY tracker state satisfying T (optimistic: a region with a free block of order >= o is not marked full at o): a block is handed out iff the region has an aligned free block of that order; a refusal changes nothing; afterwards T still holds - a region that contains a suitable free block is never reported full
+// @harness props=C14 tier=thorough timeout=7200 mem=40 stubbing=1 replay=scenario:page_alter
+// @desc (attempted: did not close in 2400 s / 17 GB in the quick tier) allocate_helper_retry (region selection through the region tracker) on a one-region database from ANY allocator state satisfying R and ANY tracker state satisfying T (optimistic: a region with a free block of order >= o is not marked full at o): a block is handed out iff the region has an aligned free block of that order; a refusal changes nothing; afterwards T still holds - a region that contains a suitable free block is never reported full
 // @functions TransactionalMemory::allocate_helper_retry, RegionTracker::{find_free,mark_full}, BtreeBitmap::{find_first_unset,set,update_to_root}, BuddyAllocator::{alloc,alloc_inner}
 // @bound one region of 13 (resp. 16) pages, capacity 16, 5 tracked orders (the real tracker has 21), tracker bitmaps with the real 4-level shape; allocator words, tracker bits and the order arbitrary; allocation policy Default (alloc); alloc_lowest is outside
 // @stubs alloc::fmt::format -> empty
